@@ -114,6 +114,19 @@ func (e *GenEnv) GenTemplate(t *rapid.T, id uint16) Template {
 	for i := 0; i < nf; i++ {
 		tp.Fields = append(tp.Fields, e.GenField(t))
 	}
+	// at most one long field per template (a record stays below ~10 KB, so that a few records, sets and the
+	// announcement still fit one datagram)
+	long := false
+	for _, fs := range [][]Field{tp.Scope, tp.Fields} {
+		for i := range fs {
+			if fs[i].Len != VarLen && fs[i].Len > 200 {
+				if long {
+					fs[i].Len = uint16(1 + int(fs[i].Len)%40)
+				}
+				long = true
+			}
+		}
+	}
 	if tp.MinRecordLen() == 0 {
 		// a zero-octet record cannot be delimited on the wire: give the first field its natural size (or 1)
 		fs := tp.Fields
@@ -161,6 +174,10 @@ func GenRecord(t *rapid.T, tp *Template) Record {
 func (e *GenEnv) GenDataSet(t *rapid.T, tp *Template, maxRecs int) Set {
 	s := Set{Kind: "data", Tpl: tp}
 	n := rapid.OneOf(rapid.IntRange(1, 3), rapid.IntRange(1, maxRecs)).Draw(t, "nrecs")
+	// records of templates with a long field: no more than fit into ~12 KB per set
+	for rl := tp.MinRecordLen(); n > 1 && n*rl > 12000; {
+		n--
+	}
 	for i := 0; i < n; i++ {
 		s.Recs = append(s.Recs, GenRecord(t, tp))
 	}
